@@ -41,6 +41,32 @@ type freshFn struct {
 	body  *ast.BlockStmt
 	alias map[types.Object]string // receiver and parameters
 	busy  map[types.Object]bool
+	par   map[ast.Node]ast.Node
+}
+
+// inSameObjectBranch: n sits in the then-branch of `if <parameter> == <parameter>`
+// (destination and source are one object there: in-place slicing is allowed).
+func (f *freshFn) inSameObjectBranch(n ast.Node) bool {
+	if f.par == nil {
+		f.par = parents(f.body)
+	}
+	var child ast.Node = n
+	for x := f.par[n]; x != nil; child, x = x, f.par[x] {
+		if ifs, ok := x.(*ast.IfStmt); ok && child == ast.Node(ifs.Body) {
+			if be, ok := unparen(ifs.Cond).(*ast.BinaryExpr); ok && be.Op == token.EQL {
+				ix, okx := unparen(be.X).(*ast.Ident)
+				iy, oky := unparen(be.Y).(*ast.Ident)
+				if okx && oky {
+					_, ax := f.alias[f.p.TypesInfo.ObjectOf(ix)]
+					_, ay := f.alias[f.p.TypesInfo.ObjectOf(iy)]
+					if ax && ay {
+						return true
+					}
+				}
+			}
+		}
+	}
+	return false
 }
 
 func newFreshFn(p *packages.Package, fd *ast.FuncDecl) *freshFn {
@@ -188,6 +214,9 @@ func (f *freshFn) classifyLocal(v *types.Var) (fkind, string) {
 				id, ok := l.(*ast.Ident)
 				if !ok || f.p.TypesInfo.ObjectOf(id) != v {
 					continue
+				}
+				if f.inSameObjectBranch(s) {
+					continue // what is assigned where destination and source are one object may alias it
 				}
 				if len(s.Rhs) == len(s.Lhs) {
 					acc(f.classify(s.Rhs[i]))
@@ -757,26 +786,114 @@ func ruleRetain(c *Ctx, rule string, targets [][2]string, summaryPkgs ...string)
 // ruleFreshDst: the argument of every SetSlice in the sequtils functions is
 // FRESH unless the call sits in the then-branch of `dst == src`.
 func ruleFreshDst(c *Ctx, rule string, names ...string) {
-	for _, name := range names {
-		fd, p := c.decl("seq/sequtils", name)
-		f := newFreshFn(p, fd)
-		par := parents(fd.Body)
-		n := 0
-		var calls []*ast.CallExpr
+	_, p := c.decl("seq/sequtils", names[0])
+	decls := map[types.Object]*ast.FuncDecl{}
+	for _, file := range p.Syntax {
+		for _, d := range file.Decls {
+			if fd, ok := d.(*ast.FuncDecl); ok && fd.Body != nil {
+				decls[p.TypesInfo.Defs[fd.Name]] = fd
+			}
+		}
+	}
+	// wrappers: private helpers that install one of their parameters in another (x.SetSlice(y)); a call of
+	// one is an installation of the corresponding argument
+	type wrap struct{ dst, val int }
+	wrappers := map[types.Object]wrap{}
+	for o, fd := range decls {
+		if fd.Recv != nil || fd.Name.IsExported() {
+			continue
+		}
+		idx := map[types.Object]int{}
+		i := 0
+		for _, fl := range fd.Type.Params.List {
+			for _, nm := range fl.Names {
+				idx[p.TypesInfo.Defs[nm]] = i
+				i++
+			}
+		}
 		ast.Inspect(fd.Body, func(x ast.Node) bool {
 			if call, ok := x.(*ast.CallExpr); ok {
 				if sel, ok := call.Fun.(*ast.SelectorExpr); ok && sel.Sel.Name == "SetSlice" && len(call.Args) == 1 {
-					if _, isM := calleeOf(p, call).(*types.Func); isM {
-						calls = append(calls, call)
+					rid, ok1 := unparen(sel.X).(*ast.Ident)
+					aid, ok2 := unparen(call.Args[0]).(*ast.Ident)
+					if ok1 && ok2 {
+						di, okd := idx[p.TypesInfo.ObjectOf(rid)]
+						vi, okv := idx[p.TypesInfo.ObjectOf(aid)]
+						if okd && okv {
+							wrappers[o] = wrap{di, vi}
+						}
 					}
 				}
 			}
 			return true
 		})
-		for _, call := range calls {
+	}
+	// targets: the named operations and the private helpers they reach (other than wrappers)
+	var targets []*ast.FuncDecl
+	seen := map[*ast.FuncDecl]bool{}
+	var reach func(fd *ast.FuncDecl)
+	reach = func(fd *ast.FuncDecl) {
+		if seen[fd] {
+			return
+		}
+		seen[fd] = true
+		targets = append(targets, fd)
+		ast.Inspect(fd.Body, func(x ast.Node) bool {
+			if call, ok := x.(*ast.CallExpr); ok {
+				if o, ok := calleeOf(p, call).(*types.Func); ok {
+					if h := decls[o]; h != nil && !h.Name.IsExported() && h.Recv == nil {
+						if _, isW := wrappers[o]; !isW {
+							reach(h)
+						}
+					}
+				}
+			}
+			return true
+		})
+	}
+	var roots []*ast.FuncDecl
+	for _, name := range names {
+		fd, _ := c.decl("seq/sequtils", name)
+		roots = append(roots, fd)
+		reach(fd)
+	}
+	isRoot := func(fd *ast.FuncDecl) bool {
+		for _, r := range roots {
+			if r == fd {
+				return true
+			}
+		}
+		return false
+	}
+	for _, fd := range targets {
+		name := fd.Name.Name
+		f := newFreshFn(p, fd)
+		par := parents(fd.Body)
+		n := 0
+		type inst struct {
+			call *ast.CallExpr
+			dst  ast.Expr
+			val  ast.Expr
+		}
+		var calls []inst
+		ast.Inspect(fd.Body, func(x ast.Node) bool {
+			if call, ok := x.(*ast.CallExpr); ok {
+				if sel, ok := call.Fun.(*ast.SelectorExpr); ok && sel.Sel.Name == "SetSlice" && len(call.Args) == 1 {
+					if _, isM := calleeOf(p, call).(*types.Func); isM {
+						calls = append(calls, inst{call, sel.X, call.Args[0]})
+					}
+				} else if o, ok := calleeOf(p, call).(*types.Func); ok {
+					if w, isW := wrappers[o]; isW && w.dst < len(call.Args) && w.val < len(call.Args) {
+						calls = append(calls, inst{call, call.Args[w.dst], call.Args[w.val]})
+					}
+				}
+			}
+			return true
+		})
+		for _, in := range calls {
+			call := in.call
 			n++
-			sel := call.Fun.(*ast.SelectorExpr)
-			key := fmt.Sprintf("sequtils.%s/%s.SetSlice#%d", name, exprStr(c.Fset, sel.X), n)
+			key := fmt.Sprintf("sequtils.%s/%s.SetSlice#%d", name, exprStr(c.Fset, in.dst), n)
 			// inside `if dst == src { ... }` ?
 			same := false
 			var child ast.Node = call
@@ -791,20 +908,34 @@ func ruleFreshDst(c *Ctx, rule string, names ...string) {
 					}
 				}
 			}
-			k, w := f.classify(call.Args[0])
+			k, w := f.classify(in.val)
 			switch {
 			case same:
 				c.triv(rule, key, call.Pos(), "destination and source are the same object on this branch: in-place slicing allowed")
 			case k == fFresh:
-				c.ok(rule, key, call.Pos(), "installs newly allocated storage ("+exprStr(c.Fset, call.Args[0])+")")
+				c.ok(rule, key, call.Pos(), "installs newly allocated storage ("+exprStr(c.Fset, in.val)+")")
 			case k == fAlias:
 				c.bad(rule, key, call.Pos(), "installs "+w+" in the destination while destination and source may differ: the result shares storage with the source (and reversing it rewrites the source)")
 			default:
-				c.und(rule, key, call.Pos(), "cannot classify "+exprStr(c.Fset, call.Args[0]))
+				c.und(rule, key, call.Pos(), "cannot classify "+exprStr(c.Fset, in.val))
 			}
 		}
-		if n == 0 {
-			c.und(rule, "sequtils."+name+"/SetSlice", fd.Pos(), "no SetSlice call found")
+		if n == 0 && isRoot(fd) {
+			// the operation may install its result through a private helper that was analysed as a target of its own
+			viaHelper := false
+			ast.Inspect(fd.Body, func(x ast.Node) bool {
+				if call, ok := x.(*ast.CallExpr); ok {
+					if o, ok := calleeOf(p, call).(*types.Func); ok {
+						if h := decls[o]; h != nil && seen[h] && h != fd {
+							viaHelper = true
+						}
+					}
+				}
+				return true
+			})
+			if !viaHelper {
+				c.und(rule, "sequtils."+name+"/SetSlice", fd.Pos(), "no SetSlice call found")
+			}
 		}
 	}
 }
